@@ -533,8 +533,11 @@ def run(rep, tier, seed):
             rep.violation("sanitizer-report:" + variant, san[-1500:], None)
         _judge_all(rep, variant, "direct", dcases[:nd], dmeta[:nd], dres)
         _judge_all(rep, variant, "feel", fcases[:nf], fmeta[:nf], fres)
-    if tier == "thorough":
-        _valgrind_slice(rep, dcases[:20] + fcases[:20])
+    # valgrind memcheck replay of a slice (uninitialised reads / heap errors inside decNumber and at the FFI
+    # buffers, which ASan's red zones and write-only C instrumentation do not show)
+    nv = (2, 4) if tier == "quick" else (64, 96)
+    step_d, step_f = max(1, len(dcases) // nv[0]), max(1, len(fcases) // nv[1])
+    runner.memcheck_replay(rep, dcases[::step_d][: nv[0]] + fcases[::step_f][: nv[1]])
     if rep.evaluations < 10000:
         rep.inconclusive_reason("too few operations observed: %d" % rep.evaluations)
 
